@@ -87,7 +87,7 @@ def run_real_program(spec, ops):
     return outs, findings
 
 
-class C07(core.Check):
+class C07(frame.Findings, core.Check):
     pid = 'C07'
     title = 'TensorFrame row selection is coherent across all stypes and the target'
     driver = 'drv_c07'
@@ -129,7 +129,7 @@ class C07(core.Check):
 
     def real(self, case):
         outs, findings = run_real_program(case['frame'], case['ops'])
-        self._findings = findings
+        self.remember(case, findings)
         return outs
 
     def model_requests(self, case):
@@ -139,15 +139,16 @@ class C07(core.Check):
         return replies[0]
 
     def oracle(self, case, real_outcome):
-        if self._findings:
-            k, what, exp, got = self._findings[0]
-            op = case['ops'][k]
+        findings = self.recall(case)
+        if findings:
+            k, what, exp, got = findings[0]
+            op = case['ops'][min(k, len(case['ops']) - 1)]
             return core.Violation(f"frame/{op['op']}/{what}", f'step {k} ({op}): {what}', case, exp, got)
         return None
 
     def nontrivial_key(self, case, outs):
         for op, o in zip(case['ops'], outs):
-            if op['op'] == 'sel' and isinstance(o, dict) and o['ok']['len'] > 0 and o['ok']['feats']:
+            if op['op'] == 'sel' and isinstance(o, dict) and o['ok'].get('len', 0) > 0 and o['ok']['feats']:
                 return core.stable_hash(case)
         return None
 
@@ -164,7 +165,7 @@ class C07(core.Check):
             res = 'raises' if o == 'raises' else 'ok'
             if op['op'] == 'sel':
                 labs.append(f"sel:{op['ix']['t']}/{op['ix'].get('as', '')}:{res}")
-                if res == 'ok' and o['ok']['len'] == 0:
+                if res == 'ok' and o['ok'].get('len') == 0:
                     labs.append('selects-zero-rows')
             else:
                 labs.append(f'col:{res}')
